@@ -1,8 +1,8 @@
 #!/bin/bash
-# tools/seed_import.sh <id> [name]: take a sub-agent's deliverables from /tmp/seed/<id>/out into
-# /verif/seeded/<name> and remove its scratch worktree.
-id=$1; name=${2:-$1}; V="$(cd "$(dirname "$0")/.." && pwd)"
+# tools/seed_import.sh <id> [name] [srcroot]: take a sub-agent's deliverables from <srcroot>/<id>/out
+# (default /tmp/seed) into /verif/seeded/<name> and remove its scratch worktree.
+id=$1; name=${2:-$1}; src=${3:-/tmp/seed}; V="$(cd "$(dirname "$0")/.." && pwd)"
 rm -rf "$V/seeded/$name"; mkdir -p "$V/seeded/$name"
-cp -r /tmp/seed/$id/out/patch.diff /tmp/seed/$id/out/demo /tmp/seed/$id/out/meta.json "$V/seeded/$name/" || exit 1
-git -C /repo worktree remove --force /tmp/seed/$id/wt 2>/dev/null
+cp -r $src/$id/out/patch.diff $src/$id/out/demo $src/$id/out/meta.json "$V/seeded/$name/" || exit 1
+git -C /repo worktree remove --force $src/$id/wt 2>/dev/null
 ls "$V/seeded/$name/demo"
